@@ -26,6 +26,10 @@ struct SchedState {
     done: Vec<bool>,
     trace: Vec<(usize, &'static str)>,
     skip_write_point: bool,
+    /// OS thread ids (for /proc/self/task/<tid>/syscall)
+    ostid: Vec<u64>,
+    /// the thread did not reach its next point because it sleeps on an engine lock (futex) held by a parked thread
+    blocked: Vec<bool>,
 }
 struct Sched {
     st: Mutex<SchedState>,
@@ -42,13 +46,29 @@ fn point(name: &'static str) {
         return;
     }
     g.waiting[tid] = Some(name);
-    g.current = None;
+    g.blocked[tid] = false; // a thread that slept on an engine lock parks here as soon as it got the lock
+    if g.current == Some(tid) {
+        g.current = None;
+    }
     s.cv.notify_all();
     while g.current != Some(tid) {
         g = s.cv.wait(g).unwrap();
     }
     g.waiting[tid] = None;
     g.trace.push((tid, name));
+}
+
+fn key_of(k: u8) -> Vec<u8> {
+    if k >= 100 { vec![b'z', k, 0xff] } else { vec![b'k', k, 0xff] }
+}
+
+fn os_tid() -> u64 {
+    std::fs::read_link("/proc/thread-self").ok().and_then(|p| p.file_name().and_then(|n| n.to_str().and_then(|n| n.parse().ok()))).unwrap_or(0)
+}
+
+/// is the thread sleeping in futex(2)? (std's RwLock / Mutex park there; file I/O shows another syscall number)
+fn in_futex(tid: u64) -> bool {
+    std::fs::read_to_string(format!("/proc/self/task/{tid}/syscall")).map(|s| s.starts_with("202 ")).unwrap_or(false)
 }
 
 #[derive(Clone)]
@@ -74,7 +94,7 @@ fn cuts_for(tree: &AnyTree, ids: &[u64]) -> String {
 }
 
 /// what model label explains the difference between two quiescent states (at most one critical section apart)?
-fn infer(before: &Snap, after: &Snap, tree: &AnyTree, wm: SeqNo) -> Result<Option<String>, String> {
+fn infer(before: &Snap, after: &Snap, tree: &AnyTree, wm: SeqNo, drop_hint: bool) -> Result<Option<String>, String> {
     let (b, a) = (&before.hist_latest, &after.hist_latest);
     // a write: some memtable gained entries
     for (id, ents) in &after.mem_entries {
@@ -113,12 +133,15 @@ fn infer(before: &Snap, after: &Snap, tree: &AnyTree, wm: SeqNo) -> Result<Optio
         let dest = level_of(&a.table_ids, moved[0]).unwrap();
         return Ok(Some(format!("move ids={} dest={dest} wm={wm}", show_ids(&moved))));
     }
+    if !removed.is_empty() && drop_hint {
+        return Ok(Some(format!("drop ids={} wm={wm}", show_ids(&removed))));
+    }
     if !removed.is_empty() {
         // a merge whose whole output was dropped
         return Ok(Some(format!("merge ids={} dest=6 wm={wm} filter=none cuts=", show_ids(&removed))));
     }
     // new version with identical content (e.g. a flush of an all-dropped stream)
-    Ok(Some("drop ids= wm=0".to_string()))
+    Ok(Some(format!("drop ids= wm={wm}")))
 }
 
 pub fn campaign(seed: u64, cases: u64, mode_inflight: bool, blob: bool, st: &mut Stats) {
@@ -143,33 +166,41 @@ pub fn campaign(seed: u64, cases: u64, mode_inflight: bool, blob: bool, st: &mut
         let n_writes = 12 + rng.below(30);
         let n_compactors = 1 + rng.below(3) as usize; // at most 3 (wms has 8 slots)
         let n_readers = 1 + rng.below(2) as usize;
-        let nthreads = 2 + n_compactors + n_readers; // 0 writer, 1 flusher, compactors, readers
+        let nthreads = 4 + n_compactors + n_readers; // 0 writer, 1 flusher, compactors, readers, major / drop_range, last: rotator
         {
             let mut g = sched.st.lock().unwrap();
-            *g = SchedState { current: None, waiting: vec![None; nthreads], done: vec![false; nthreads], trace: vec![], skip_write_point: !mode_inflight };
+            *g = SchedState { current: None, waiting: vec![None; nthreads], done: vec![false; nthreads], trace: vec![], skip_write_point: !mode_inflight, ostid: vec![0; nthreads], blocked: vec![false; nthreads] };
         }
         // oracle log: (seqno, key idx, Some(value) | None=delete), appended BEFORE the insert; `acked` = highest seqno whose insert returned
         let log: Arc<Mutex<Vec<(SeqNo, u8, Option<Vec<u8>>)>>> = Arc::new(Mutex::new(vec![]));
         let inflight: Arc<Mutex<Option<SeqNo>>> = Arc::new(Mutex::new(None));
         let errors: Arc<Mutex<Vec<String>>> = Arc::new(Mutex::new(vec![]));
         let live_snaps: Arc<Mutex<Vec<SeqNo>>> = Arc::new(Mutex::new(vec![]));
-        let wms: Arc<Vec<AtomicU64>> = Arc::new((0..8).map(|_| AtomicU64::new(0)).collect());
+        let wms: Arc<Vec<AtomicU64>> = Arc::new((0..12).map(|_| AtomicU64::new(0)).collect());
         let reads_checked = Arc::new(AtomicU64::new(0));
+        let drop_calls = Arc::new(AtomicU64::new(0));
+        let major_op = Arc::new(AtomicU64::new(0));
+        let mut blocked_seen = 0u64;
+        let mut stalled = 0u32;
         let nkeys = 3 + rng.below(4) as u8;
-        let key = |k: u8| vec![b'k', k, 0xff];
+        let key = key_of;
         let mut hs = vec![];
         let spawn = |tid: usize, f: Box<dyn FnOnce() + Send>| {
             let sched = sched.clone();
             let errors = errors.clone();
             std::thread::spawn(move || {
                 TID.with(|t| t.set(Some(tid)));
+                sched.st.lock().unwrap().ostid[tid] = os_tid();
                 point("start");
                 if std::panic::catch_unwind(std::panic::AssertUnwindSafe(f)).is_err() {
                     errors.lock().unwrap().push(format!("C06 thread {tid} panicked"));
                 }
                 let mut g = sched.st.lock().unwrap();
                 g.done[tid] = true;
-                g.current = None;
+                if g.current == Some(tid) {
+                    g.current = None;
+                }
+                g.blocked[tid] = false;
                 g.waiting[tid] = None;
                 sched.cv.notify_all();
             })
@@ -189,17 +220,23 @@ pub fn campaign(seed: u64, cases: u64, mode_inflight: bool, blob: bool, st: &mut
             let (tree, seqno, vis, log, inflight) = (tree.clone(), seqno.clone(), vis.clone(), log.clone(), inflight.clone());
             let mut wrng = rng.fork_stream();
             hs.push(spawn(0, Box::new(move || {
+                let mut zphase = false;
                 for _ in 0..n_writes {
-                    let k = wrng.below(u64::from(nkeys)) as u8;
+                    // keys k* are read back by the readers; keys z* (index 100+) are what drop_range removes
+                    // written in phases, so that whole memtables (and the tables flushed from them) hold z keys only
+                    if wrng.chance(1, 5) {
+                        zphase = !zphase;
+                    }
+                    let k = if zphase { 100 + wrng.below(3) as u8 } else { wrng.below(u64::from(nkeys)) as u8 };
                     let s = seqno.next();
                     *inflight.lock().unwrap() = Some(s);
                     if wrng.chance(1, 5) {
                         log.lock().unwrap().push((s, k, None));
-                        tree.remove(vec![b'k', k, 0xff], s);
+                        tree.remove(key_of(k), s);
                     } else {
                         let v = format!("v{s}{}", ".".repeat((s % 3) as usize * 6)).into_bytes();
                         log.lock().unwrap().push((s, k, Some(v.clone())));
-                        tree.insert(vec![b'k', k, 0xff], v, s);
+                        tree.insert(key_of(k), v, s);
                     }
                     *inflight.lock().unwrap() = None;
                     vis.fetch_max(s + 1);
@@ -282,6 +319,61 @@ pub fn campaign(seed: u64, cases: u64, mode_inflight: bool, blob: bool, st: &mut
                 }
             })));
         }
+        {
+            // major compaction / drop_range: both take the major-compaction lock exclusively, so they sleep on it while a
+            // minor compaction is between its points (the controller sees the futex sleep and schedules the others)
+            let (tree, errors, wm_now, wms, drop_calls, major_op) = (tree.clone(), errors.clone(), wm_now.clone(), wms.clone(), drop_calls.clone(), major_op.clone());
+            let n = rng.below(4);
+            let mut mrng = rng.fork_stream();
+            let tid = nthreads - 2;
+            hs.push(spawn(tid, Box::new(move || {
+                for _ in 0..n {
+                    // let the other threads build up some tables first
+                    // ... and prefer the moments at which a minor compaction is between its choose and commit steps
+                    let patience = mrng.below(120);
+                    for i in 0..patience {
+                        if i >= 10 && index_tree(&tree).is_compacting() && mrng.chance(1, 2) {
+                            break;
+                        }
+                        point("idle");
+                    }
+                    let wm = wm_now(mrng.next());
+                    wms[tid].store(wm, Ordering::SeqCst);
+                    if mrng.chance(1, 3) {
+                        major_op.store(1, Ordering::SeqCst);
+                        if let Err(e) = tree.major_compact(*mrng.pick(&[1u64, 64, u64::MAX]), wm) {
+                            errors.lock().unwrap().push(format!("C06 major_compact returned an error: {e:?}"));
+                        }
+                    } else {
+                        major_op.store(2, Ordering::SeqCst);
+                        drop_calls.fetch_add(1, Ordering::SeqCst);
+                        match tree.drop_range(vec![b'z']..) {
+                            Err(e) => errors.lock().unwrap().push(format!("C06 drop_range returned an error: {e:?}")),
+                            Ok(()) => {
+                                // same segment as the drop's commit: whatever the schedule, every table inside the range is gone
+                                for t in index_tree(&tree).current_version().iter_tables() {
+                                    if t.metadata.key_range.min().as_ref() >= b"z".as_slice() {
+                                        errors.lock().unwrap().push(format!("C06 drop_range(z..) returned Ok but table {} [{}..{}], which lies inside the range, is still in the tree: the outcome depends on the schedule", t.id(), hex(t.metadata.key_range.min()), hex(t.metadata.key_range.max())));
+                                    }
+                                }
+                            }
+                        }
+                    }
+                    point("major_done");
+                }
+            })));
+        }
+        {
+            // a thread that only rotates the memtable: lets a rotation land between a flush's snapshot and its commit
+            let tree = tree.clone();
+            let n = 1 + rng.below(5);
+            hs.push(spawn(nthreads - 1, Box::new(move || {
+                for _ in 0..n {
+                    let _ = tree.rotate_memtable();
+                    point("rotate_done");
+                }
+            })));
+        }
         // ---- controller
         let mut model_err: Option<String> = None;
         let mut steps = 0usize;
@@ -295,21 +387,54 @@ pub fn campaign(seed: u64, cases: u64, mode_inflight: bool, blob: bool, st: &mut
         let pct = rng.chance(1, 2);
         loop {
             let mut g = sched.st.lock().unwrap();
-            while g.current.is_some() {
-                g = sched.cv.wait(g).unwrap();
+            while let Some(cur) = g.current {
+                let (g2, to) = sched.cv.wait_timeout(g, std::time::Duration::from_micros(300)).unwrap();
+                g = g2;
+                if to.timed_out() && g.current == Some(cur) && g.waiting[cur].is_none() && !g.done[cur] {
+                    // not parked yet: running, in file I/O, or asleep on an engine lock that a parked thread holds
+                    let tid = g.ostid[cur];
+                    drop(g);
+                    let mut asleep = true;
+                    for _ in 0..8 {
+                        if !in_futex(tid) {
+                            asleep = false;
+                            break;
+                        }
+                        std::thread::sleep(std::time::Duration::from_micros(250));
+                    }
+                    g = sched.st.lock().unwrap();
+                    if asleep && g.current == Some(cur) && g.waiting[cur].is_none() && !g.done[cur] {
+                        g.blocked[cur] = true;
+                        g.current = None;
+                        g.trace.push((cur, "BLOCKED"));
+                        blocked_seen += 1;
+                    }
+                }
             }
             if g.done.iter().all(|d| *d) {
                 break;
             }
-            if (0..nthreads).any(|t| !g.done[t] && g.waiting[t].is_none()) {
-                let _g = sched.cv.wait_timeout(g, std::time::Duration::from_micros(50)).unwrap();
-                continue;
+            // quiescent = every live thread is parked at a point, or still asleep on its lock (a thread that was woken by
+            // the last segment's unlock runs on to its next point, which precedes its critical section)
+            let unsettled: Vec<u64> = (0..nthreads).filter(|t| !g.done[*t] && g.waiting[*t].is_none()).map(|t| if g.blocked[t] { g.ostid[t] } else { 0 }).collect();
+            if !unsettled.is_empty() {
+                drop(g);
+                if unsettled.iter().any(|tid| *tid == 0 || !in_futex(*tid)) {
+                    std::thread::sleep(std::time::Duration::from_micros(50));
+                    continue;
+                }
+                g = sched.st.lock().unwrap();
+                if (0..nthreads).any(|t| !g.done[t] && g.waiting[t].is_none() && !g.blocked[t]) {
+                    continue;
+                }
             }
             // all threads parked: quiescent. Validate the segment that just ran.
             if drv.is_some() && model_err.is_none() && steps > 0 {
                 let after = snap(&tree);
                 let wm = wms[last_pick].load(Ordering::SeqCst);
-                match infer(&before, &after, &tree, wm) {
+                let is_drop = last_pick == nthreads - 2 && major_op.load(Ordering::SeqCst) == 2;
+                // drop_range passes watermark 0 to its version maintenance
+                match infer(&before, &after, &tree, if is_drop { 0 } else { wm }, is_drop) {
                     Ok(Some(req)) => {
                         let d = drv.as_mut().unwrap();
                         let mut reply = d.ask(&req);
@@ -330,6 +455,9 @@ pub fn campaign(seed: u64, cases: u64, mode_inflight: bool, blob: bool, st: &mut
                             model_err = Some(format!("after segment #{steps} label `{}`: model reply `{}`\n   real : {real}\n   model: {dump}", &req[..req.len().min(200)], &reply[..reply.len().min(80)]));
                         }
                         st.count(&format!("id.label.{}", req.split(' ').next().unwrap_or("")));
+                        if req.starts_with("drop ids=") && !req.starts_with("drop ids= ") {
+                            st.count("id.drop_range_dropped_tables");
+                        }
                         if req.starts_with("merge") || req.starts_with("move") {
                             let ids = req.split(' ').find(|x| x.starts_with("ids=")).unwrap_or("ids=");
                             let dest = req.split(' ').find(|x| x.starts_with("dest=")).unwrap_or("dest=0");
@@ -342,7 +470,23 @@ pub fn campaign(seed: u64, cases: u64, mode_inflight: bool, blob: bool, st: &mut
                 }
                 before = after;
             }
-            let runnable: Vec<usize> = (0..nthreads).filter(|t| !g.done[*t]).collect();
+            let runnable: Vec<usize> = (0..nthreads).filter(|t| !g.done[*t] && g.waiting[*t].is_some()).collect();
+            if runnable.is_empty() {
+                // every live thread looks asleep on a lock: either a sampling artefact (a thread contending for a harness
+                // mutex under load parks a moment later) or a genuine deadlock of the engine's locks
+                drop(g);
+                stalled += 1;
+                if stalled > 5000 {
+                    let g = sched.st.lock().unwrap();
+                    let t: String = g.trace.iter().rev().take(40).rev().map(|(t, n)| format!("{t}:{n}")).collect::<Vec<_>>().join(" ");
+                    st.oracle_failures.push(format!("C06 deadlock: threads {:?} sleep on engine locks and no other thread can run [schedule seed={seed} case={case} blob={blob} inflight={mode_inflight}; trace tail: {t}]", (0..nthreads).filter(|t| g.blocked[*t]).collect::<Vec<_>>()));
+                    println!("RESULT {}", st.to_json());
+                    std::process::exit(0);
+                }
+                std::thread::sleep(std::time::Duration::from_millis(1));
+                continue;
+            }
+            stalled = 0;
             let pick = if pct {
                 if rng.chance(1, 12) {
                     let i = rng.below(nthreads as u64) as usize;
@@ -370,6 +514,11 @@ pub fn campaign(seed: u64, cases: u64, mode_inflight: bool, blob: bool, st: &mut
         for (_, k, v) in log.lock().unwrap().iter() {
             want.insert(*k, v.clone());
         }
+        if drop_calls.load(Ordering::SeqCst) > 0 {
+            want.retain(|k, _| *k < 100); // what a drop_range leaves of the z keys depends on table boundaries
+        }
+        st.add("id.threads_seen_asleep_on_engine_lock", blocked_seen);
+        st.add("id.drop_range_calls", drop_calls.load(Ordering::SeqCst));
         for (k, v) in &want {
             match tree.get(key(*k), s) {
                 Ok(got) => {
@@ -424,4 +573,130 @@ pub fn campaign(seed: u64, cases: u64, mode_inflight: bool, blob: bool, st: &mut
         st.nontrivial.insert(*d);
     }
     st.add("id.distinct_schedules", distinct.len() as u64);
+}
+
+/// Free-running stress (no scheduler, no model): the OS picks the interleaving, INSIDE critical sections too, which the
+/// cooperative scheduler cannot do. Many writer threads (CPUs oversubscribed, so threads are descheduled at arbitrary
+/// instructions) overwrite private keys while one thread keeps rotating + flushing and now and then compacts. Every
+/// insert that returned is an acknowledged write: the writer reads it back at once (nobody else writes that key), it
+/// must be there when all threads have finished, and after a reopen. `cases` = seconds to run. A failure is a real
+/// execution of the real code; its absence proves nothing (sampling of schedules).
+pub fn stress(seed: u64, secs: u64, blob: bool, st: &mut Stats) {
+    use std::sync::atomic::AtomicBool;
+    let cpus = std::thread::available_parallelism().map_or(4, |n| n.get());
+    let writers = (cpus * 3).clamp(8, 96);
+    let dir = tempfile::tempdir_in(crate::scratch_root()).unwrap();
+    let (seqno, vis) = (SequenceNumberCounter::default(), SequenceNumberCounter::default());
+    let mk = |seqno: &SequenceNumberCounter, vis: &SequenceNumberCounter| {
+        let c = Config::new(dir.path(), seqno.clone(), vis.clone());
+        if blob {
+            c.with_kv_separation(Some(lsm_tree::KvSeparationOptions::default().separation_threshold(8).file_target_size(4096).compression(lsm_tree::CompressionType::None)))
+        } else {
+            c
+        }
+    };
+    let tree = mk(&seqno, &vis).open().unwrap();
+    let stop = Arc::new(AtomicBool::new(false));
+    let fails: Arc<Mutex<Vec<String>>> = Arc::new(Mutex::new(vec![]));
+    let writes = Arc::new(AtomicU64::new(0));
+    let flushes = Arc::new(AtomicU64::new(0));
+    let mut hs = vec![];
+    {
+        let (tree, stop, fails, flushes) = (tree.clone(), stop.clone(), fails.clone(), flushes.clone());
+        hs.push(std::thread::spawn(move || {
+            let mut n = 0u64;
+            while !stop.load(Ordering::SeqCst) {
+                if let Err(e) = tree.flush_active_memtable(0) {
+                    fails.lock().unwrap().push(format!("C06 stress: flush returned an error: {e:?}"));
+                    break;
+                }
+                n += 1;
+                if n % 48 == 0 {
+                    if let Err(e) = tree.major_compact(u64::MAX, 0) {
+                        fails.lock().unwrap().push(format!("C06 stress: major_compact returned an error: {e:?}"));
+                        break;
+                    }
+                }
+                flushes.fetch_add(1, Ordering::SeqCst);
+            }
+        }));
+    }
+    let last: Arc<Vec<Mutex<BTreeMap<u64, u64>>>> = Arc::new((0..writers).map(|_| Mutex::new(BTreeMap::new())).collect());
+    for w in 0..writers {
+        let (tree, stop, fails, writes, seqno, vis, last) = (tree.clone(), stop.clone(), fails.clone(), writes.clone(), seqno.clone(), vis.clone(), last.clone());
+        let mut rng = Rng::new(seed.wrapping_mul(1_000_003).wrapping_add(w as u64));
+        hs.push(std::thread::spawn(move || {
+            while !stop.load(Ordering::SeqCst) {
+                let k = rng.below(24);
+                let key = format!("w{w:03}k{k:02}").into_bytes();
+                let s = seqno.next();
+                let val = format!("value-{s:012}").into_bytes();
+                tree.insert(key.clone(), val.clone(), s);
+                vis.fetch_max(s + 1);
+                last[w].lock().unwrap().insert(k, s);
+                writes.fetch_add(1, Ordering::Relaxed);
+                match tree.get(&key, SeqNo::MAX) {
+                    Ok(Some(v)) if *v == *val => {}
+                    Ok(got) => {
+                        fails.lock().unwrap().push(format!("C06 stress: writer {w} wrote {} @ {s} (acknowledged) and reads back {:?} right afterwards", String::from_utf8_lossy(&key), got.map(|v| String::from_utf8_lossy(&v).to_string())));
+                        stop.store(true, Ordering::SeqCst);
+                    }
+                    Err(e) => {
+                        fails.lock().unwrap().push(format!("C06 stress: read returned an error: {e:?}"));
+                        stop.store(true, Ordering::SeqCst);
+                    }
+                }
+                if rng.chance(1, 64) {
+                    std::thread::yield_now();
+                }
+            }
+        }));
+    }
+    let t0 = std::time::Instant::now();
+    while t0.elapsed().as_secs() < secs && !stop.load(Ordering::SeqCst) {
+        std::thread::sleep(std::time::Duration::from_millis(50));
+    }
+    stop.store(true, Ordering::SeqCst);
+    for h in hs {
+        if h.join().is_err() {
+            fails.lock().unwrap().push("C06 stress: a thread panicked".into());
+        }
+    }
+    let mut errs = fails.lock().unwrap().clone();
+    let check = |t: &AnyTree, when: &str, errs: &mut Vec<String>| {
+        for w in 0..writers {
+            for (k, s) in last[w].lock().unwrap().iter() {
+                let key = format!("w{w:03}k{k:02}").into_bytes();
+                let want = format!("value-{s:012}").into_bytes();
+                match t.get(&key, SeqNo::MAX) {
+                    Ok(Some(v)) if *v == *want => {}
+                    Ok(got) => {
+                        if errs.len() < 4 {
+                            errs.push(format!("C06 stress: acknowledged write lost {when}: {} @ {s} reads {:?}", String::from_utf8_lossy(&key), got.map(|v| String::from_utf8_lossy(&v).to_string())));
+                        }
+                    }
+                    Err(e) => errs.push(format!("C06 stress: read error {when}: {e:?}")),
+                }
+            }
+        }
+    };
+    check(&tree, "after all threads finished", &mut errs);
+    if tree.flush_active_memtable(0).is_err() {
+        errs.push("C06 stress: final flush failed".into());
+    }
+    drop(tree);
+    match mk(&seqno, &vis).open() {
+        Ok(t2) => check(&t2, "after reopen", &mut errs),
+        Err(e) => errs.push(format!("C06 stress: reopen failed: {e:?}")),
+    }
+    st.evaluations += writes.load(Ordering::SeqCst);
+    st.add("stress.writes_read_back", writes.load(Ordering::SeqCst));
+    st.add("stress.flushes", flushes.load(Ordering::SeqCst));
+    st.add("stress.writer_threads", writers as u64);
+    st.add("stress.seconds", t0.elapsed().as_secs());
+    st.nontrivial.insert(flushes.load(Ordering::SeqCst));
+    st.sample(format!("stress: {writers} writers, {} acknowledged writes read back, {} rotate+flush rounds in {} s", writes.load(Ordering::SeqCst), flushes.load(Ordering::SeqCst), t0.elapsed().as_secs()));
+    for e in errs.into_iter().take(4) {
+        st.oracle_failures.push(e);
+    }
 }
